@@ -904,3 +904,174 @@ func usedAsBound(v ssa.Value, d int, seen map[ssa.Value]bool) bool {
 	}
 	return false
 }
+
+// ---------------------------------------------------------------------------------------------
+// SUB-OBJECT ALIASING: an operand whose type S is the type of a (nested) coordinate / element of
+// the receiver type T may point INTO the receiver (z.MulByElement(&z, &z.A0), v.ScalarMul(v, &v[3])).
+// The operation then has to read the operand before it writes the receiver component of type S
+// (or copy it first): a read of the operand after such a write is a hazard.
+// ---------------------------------------------------------------------------------------------
+
+// containsType: does T (struct / array / slice, nested) contain a component of type S?
+func containsType(t, s types.Type, d int) bool {
+	if d > 6 {
+		return false
+	}
+	switch u := t.Underlying().(type) {
+	case *types.Struct:
+		for i := 0; i < u.NumFields(); i++ {
+			ft := u.Field(i).Type()
+			if types.Identical(ft, s) || containsType(ft, s, d+1) {
+				return true
+			}
+		}
+	case *types.Array:
+		return types.Identical(u.Elem(), s) || containsType(u.Elem(), s, d+1)
+	case *types.Slice:
+		return types.Identical(u.Elem(), s) || containsType(u.Elem(), s, d+1)
+	}
+	return false
+}
+
+func subObjectHazards(p *Program, eff *Effects, fn *ssa.Function) (int, []Finding) {
+	if fn.Signature.Recv() == nil || len(fn.Params) < 2 {
+		return 0, nil
+	}
+	rt := pointee(fn.Params[0].Type())
+	if rt == nil {
+		rt = fn.Params[0].Type()
+	}
+	var hits []Finding
+	n := 0
+	var s *Summary
+	for i := 1; i < len(fn.Params); i++ {
+		st := pointee(fn.Params[i].Type())
+		if st == nil || types.Identical(st, rt) || !containsType(rt, st, 0) {
+			continue
+		}
+		// only pointer operands to a single component (scalars); slices of components are ranges
+		if _, isPtr := fn.Params[i].Type().Underlying().(*types.Pointer); !isPtr {
+			continue
+		}
+		n++
+		if s == nil {
+			s = eff.Summary(fn)
+		}
+		hz := s.HazBetween(0, i)
+		if len(hz) == 0 {
+			continue
+		}
+		h := hz[0]
+		hits = append(hits, Finding{fn, s.Haz[h], fmt.Sprintf("sub-object(param#%d)", i-1),
+			fmt.Sprintf("%s: the operand %s (%s) may point to a component of the receiver; the receiver is written at %s%s and %s%s is read afterwards: with %s inside the receiver the later reads see the new value", funcKey(fn), fn.Params[i].Name(), types.TypeString(st, func(*types.Package) string { return "" }), fn.Params[0].Name(), h.W.Path, fn.Params[i].Name(), h.R.Path, fn.Params[i].Name())})
+	}
+	return n, hits
+}
+
+// ---------------------------------------------------------------------------------------------
+// ASM-BOUNDS: an assembly routine (a repository function without a Go body) that receives the
+// address of the first element of a slice works on a range it derives from its other arguments and
+// does no bounds checking. The call is dominated by a comparison that mentions the length of that
+// slice (a guard such as len(a) != len(b) -> panic, n == 0 -> return, len(a) < 2*m -> generic path),
+// or the slice was allocated in the function with a length it controls.
+// ---------------------------------------------------------------------------------------------
+func asmCallBounds(p *Program, fn *ssa.Function) (int, []Finding) {
+	var hits []Finding
+	n := 0
+	// values that denote len(s) for each slice value s (by description)
+	for _, b := range fn.Blocks {
+		for _, in := range b.Instrs {
+			call, ok := in.(*ssa.Call)
+			if !ok {
+				continue
+			}
+			callee := call.Call.StaticCallee()
+			if callee == nil || callee.Blocks != nil || !strings.HasPrefix(fnPkgPath(callee), modPath) {
+				continue
+			}
+			// only range kernels: the stub takes a count / index argument (element-wise stubs such as
+			// Butterfly(a, b *Element) touch exactly the elements whose addresses they get)
+			hasCount := false
+			for i := 0; i < callee.Signature.Params().Len(); i++ {
+				if bt, ok := callee.Signature.Params().At(i).Type().Underlying().(*types.Basic); ok && bt.Info()&types.IsInteger != 0 {
+					hasCount = true
+				}
+			}
+			if !hasCount {
+				continue
+			}
+			for _, a := range call.Call.Args {
+				ia, ok := a.(*ssa.IndexAddr)
+				if !ok {
+					continue
+				}
+				if _, isSlice := ia.X.Type().Underlying().(*types.Slice); !isSlice {
+					continue
+				}
+				if k, ok := constInt(ia.Index); !ok || k != 0 {
+					continue
+				}
+				n++
+				base := stripConv(ia.X)
+				if _, fresh := base.(*ssa.MakeSlice); fresh {
+					continue
+				}
+				want := descValue(base, 0)
+				if lengthGuarded(fn, call, base, want) {
+					continue
+				}
+				hits = append(hits, Finding{fn, call.Pos(), "asm-range-guarded(" + callee.Name() + ":" + want + ")",
+					fmt.Sprintf("%s: passes &%s[0] to the assembly routine %s without any dominating test of len(%s): the routine works on a range derived from its other arguments and does no bounds checking", funcKey(fn), want, callee.Name(), want)})
+			}
+		}
+	}
+	return n, hits
+}
+
+// lengthGuarded: some If that dominates the call has a condition whose expression mentions
+// len(base) (same SSA value, or a value with the same description).
+func lengthGuarded(fn *ssa.Function, call *ssa.Call, base ssa.Value, desc string) bool {
+	mentionsLen := func(v ssa.Value) bool {
+		seen := map[ssa.Value]bool{}
+		var rec func(v ssa.Value, d int) bool
+		rec = func(v ssa.Value, d int) bool {
+			if d > 8 || v == nil || seen[v] {
+				return false
+			}
+			seen[v] = true
+			if c, ok := v.(*ssa.Call); ok {
+				if bi, ok := c.Call.Value.(*ssa.Builtin); ok && bi.Name() == "len" && len(c.Call.Args) == 1 {
+					x := stripConv(c.Call.Args[0])
+					if x == base || descValue(x, 0) == desc {
+						return true
+					}
+				}
+			}
+			if in, ok := v.(ssa.Instruction); ok {
+				switch v.(type) {
+				case *ssa.BinOp, *ssa.UnOp, *ssa.Convert, *ssa.Phi, *ssa.ChangeType:
+					for _, op := range in.Operands(nil) {
+						if op != nil && rec(*op, d+1) {
+							return true
+						}
+					}
+				}
+			}
+			return false
+		}
+		return rec(v, 0)
+	}
+	for d := call.Block(); d != nil; d = d.Idom() {
+		id := d.Idom()
+		if id == nil {
+			break
+		}
+		if iff, ok := id.Instrs[len(id.Instrs)-1].(*ssa.If); ok {
+			// short-circuit chains: the condition may itself be a phi of comparisons
+			if mentionsLen(iff.Cond) {
+				return true
+			}
+		}
+	}
+	return false
+}
